@@ -33,6 +33,7 @@ INCRATE_FILES = {
     "bitset.rs": ("read_in", "collections::int_set::bitset::verif_harness"),
     "int_set.rs": ("read_in", "collections::int_set::verif_harness"),
     "range_set.rs": ("read_in", "collections::range_set::verif_harness"),
+    "variations.rs": ("read_in", "tables::variations::verif_harness"),
     "engine.rs": ("skrifa_in", "outline::glyf::hint::engine::verif_harness"),
     "engine_ops.rs": ("skrifa_in", "outline::glyf::hint::engine::verif_harness"),
     "decycler.rs": ("skrifa_in", "decycler::verif_harness"),
